@@ -1,7 +1,7 @@
 (* E1 proofs: the master theorems by induction on the type code -- every nesting of the
    shipped constructors at once. *)
 From HV Require Import Lattice.Univ Lattice.Ord Lattice.PScalar Lattice.PSet Lattice.PBot
-  Lattice.PPair Lattice.PVec Lattice.PMap.
+  Lattice.PPair Lattice.PVec Lattice.PMap Lattice.Tomb Lattice.PTomb Lattice.UF Lattice.PUF.
 
 Lemma total_ops t : total_ty t = true -> Total (ops t).
 Proof.
@@ -28,6 +28,9 @@ Proof.
   - apply andb_true_iff in K. destruct K as [K K2]. apply andb_true_iff in K. destruct K as [T K1].
     apply dom_laws; auto. apply total_ops, T.
   - apply vec_laws. apply IHt, K.
+  - apply settomb_laws.
+  - apply maptomb_laws. apply IHt, K.
+  - apply uf_laws.
 Qed.
 
 (* ---------------------------------------------------------------- is_top *)
@@ -35,7 +38,7 @@ Qed.
 Fixpoint nontriv (t : lty) : bool :=
   match t with
   | TUnit => false
-  | TMax _ | TMin _ | TSet | TConflict | TTop _ | TVec _ => true
+  | TMax _ | TMin _ | TSet | TConflict | TTop _ | TVec _ | TSetTomb | TMapTomb _ | TUF => true
   | TMap v | TBot v => nontriv v
   | TPair a b | TDom a b => nontriv a || nontriv b
   end.
@@ -76,6 +79,9 @@ Proof.
   - destruct (inh (laws t K)) as [v Wv]. exists [v]. split.
     + unfold W in *. cbn. rewrite Wv. reflexivity.
     + reflexivity.
+  - exists ([0%N], []). split; reflexivity.
+  - exists ([], [0%N]). split; reflexivity.
+  - exists [(1%N, 0%N)]. split; reflexivity.
 Qed.
 
 Lemma no_top t : has_top t = false -> forall a, istop (ops t) a = false.
@@ -91,6 +97,9 @@ Proof.
   - destruct a as [a b]. cbn. apply andb_false_iff in HT. destruct HT as [HT|HT].
     + rewrite (IHt1 HT). reflexivity.
     + rewrite (IHt2 HT). apply andb_false_r.
+  - reflexivity.
+  - reflexivity.
+  - reflexivity.
   - reflexivity.
 Qed.
 
@@ -121,6 +130,9 @@ Proof.
     apply andb_true_iff in TK. destruct TK.
     apply dom_toplaw; auto using laws, total_ops.
   - apply vec_toplaw. apply laws, K.
+  - apply settomb_toplaw.
+  - apply maptomb_toplaw. apply laws, K.
+  - apply uf_toplaw.
 Qed.
 
 (* Fixed finding (repo commit "fix: WithTop::is_top reports only the adjoined top"): before
